@@ -440,6 +440,44 @@ func (ck *Checker) disciplineObligations() []*Obligation {
 		cursor := map[string]bool{"(*lexer).next": true, "(*lexer).current": true, "(*lexer).emit": true, "(*lexer).emitError": true,
 			"(*lexer).backup": true, "(*lexer).unbackup": true, "(*lexer).ignore": true}
 		tokens := map[string]bool{"(*lexer).emit": true, "(*lexer).emitError": true, "(*lexer).run": true, "(*lexer).nextToken": true, "newLexer": true}
+		// private helpers of the primitives are primitives too: a function all of whose
+		// callers are in a set (and that has a caller, and whose address is not taken) joins it
+		callers := map[*ssa.Function][]*ssa.Function{}
+		for _, f := range p.All {
+			for _, b := range f.Blocks {
+				for _, ins := range b.Instrs {
+					if ci, ok := ins.(ssa.CallInstruction); ok {
+						if sc := ci.Common().StaticCallee(); sc != nil {
+							callers[sc] = append(callers[sc], f)
+						}
+					}
+				}
+			}
+		}
+		closeOver := func(set map[string]bool) {
+			for changed := true; changed; {
+				changed = false
+				for _, f := range p.All {
+					fnm := p.FuncName(f)
+					if set[fnm] || p.shortPkg(f) != "" || f.Blocks == nil || len(callers[f]) == 0 || e.addressTaken(f) || e.methodValueTaken(f) {
+						continue
+					}
+					all := true
+					for _, c := range callers[f] {
+						if !set[p.FuncName(c)] {
+							all = false
+						}
+					}
+					if all {
+						set[fnm] = true
+						changed = true
+					}
+				}
+			}
+		}
+		closeOver(window)
+		closeOver(cursor)
+		closeOver(tokens)
 		var bad []string
 		for _, f := range p.All {
 			if p.shortPkg(f) != "" || f.Blocks == nil {
@@ -466,7 +504,7 @@ func (ck *Checker) disciplineObligations() []*Obligation {
 			// the chunk channel is received from only in next()
 			for _, b := range f.Blocks {
 				for _, ins := range b.Instrs {
-					if u, ok := ins.(*ssa.UnOp); ok && u.Op.String() == "<-" && chanVarName(u.X) == "inputs" && fn != "(*lexer).next" {
+					if u, ok := ins.(*ssa.UnOp); ok && u.Op.String() == "<-" && chanVarName(u.X) == "inputs" && !window[fn] {
 						if _, isF := u.X.(*ssa.UnOp); isF {
 							if fa, ok := u.X.(*ssa.UnOp).X.(*ssa.FieldAddr); ok && strings.HasSuffix(fa.X.Type().String(), "lexer") {
 								bad = append(bad, fmt.Sprintf("%s receives from lexer.inputs at %s", fn, p.Pos(instrPos(ins))))
